@@ -24,7 +24,7 @@ typedef std::function<Scenario *(const Config &)> Factory;
 
 struct Runner {
   Config cfg; Factory factory; Explorer ex; vk_shm *shm = nullptr; int shmfd = -1;
-  std::map<std::string, long> totals; std::vector<std::string> samples;
+  std::map<std::string, long> totals; std::vector<std::string> samples; std::map<std::string, std::string> softs;
   int wid = 0; long nexec = 0;
 
   void setup_shm() {
@@ -36,7 +36,7 @@ struct Runner {
     if (shm == MAP_FAILED) { perror("mmap slots"); exit(2); }
   }
 
-  struct Result { bool violated = false; std::string key, text; uint64_t trace = 0; std::vector<std::string> tracelog; bool harness = false; std::string hmsg; long steps = 0; std::string description; std::map<std::string, long> counters; uint64_t outcome = 0; std::string tree; };
+  struct Result { bool violated = false; std::string key, text; uint64_t trace = 0; std::vector<std::string> tracelog; bool harness = false; std::string hmsg; long steps = 0; std::string description; std::map<std::string, long> counters; uint64_t outcome = 0; std::string tree; std::vector<std::pair<std::string, std::string>> softs; };
 
   Result run_one(const Item *it, bool keep_trace) {
     Result res;
@@ -49,7 +49,7 @@ struct Runner {
     w.kill_all_real();
     if (ex.diverged) { res.harness = true; res.hmsg = "nondeterminism: " + ex.diverge_msg; }
     res.violated = w.aborted; res.key = w.viol_key; res.text = w.viol_text; res.trace = w.trace_hash; res.tracelog = w.tracelog; res.steps = w.total_steps;
-    res.description = w.description; res.counters = w.counters; res.outcome = w.outcome_hash;
+    res.description = w.description; res.counters = w.counters; res.outcome = w.outcome_hash; res.softs = w.softs;
     if (keep_trace) { w.k.dump_tree(w.k.root, "", res.tree, true); }
     return res;
   }
@@ -95,6 +95,7 @@ struct Runner {
           Result r = run_one(it, false); nexec++;
           sh->stat[0]++; sh->stat[1] += r.steps; sh->stat[2] += ex.npoints; sh->level_execs[L]++;
           for (auto &c : r.counters) totals[c.first] += c.second;
+          for (auto &sv : r.softs) if (softs.size() < 200 && !softs.count(sv.first)) softs[sv.first] = sv.second + " [choices " + item_str(it) + "]";
           if (r.harness) { snprintf(sh->harness_msg, sizeof sh->harness_msg, "%s [choices %s]", r.hmsg.c_str(), item_str(it).c_str()); sh->stop.store(3); sh->active--; goto done; }
           if (r.violated) {
             // replay twice with tracing; identical verdict and trace hash required
@@ -128,7 +129,7 @@ struct Runner {
     { std::ofstream f(cfg.outdir + "/worker-" + cfg.family + "-" + std::to_string(wid) + ".stats");
       for (auto &c : totals) f << "C " << c.first << " " << c.second << "\n";
       for (auto &s : samples) f << "S " << s << "\n";
-      f << "C worker_" << wid << "_execs " << nexec << "\n"; }
+      for (auto &sv : softs) { std::string t = sv.second; for (auto &ch : t) if (ch == '\n') ch = ' '; f << "V " << sv.first << "\t" << t << "\n"; } }
   }
 };
 
@@ -177,11 +178,12 @@ static inline int vk_main(int argc, char **argv, Factory factory, const char *de
   bool worker_crashed = false;
   for (pid_t pid : kids) { int st; waitpid(pid, &st, 0); if (!WIFEXITED(st) || WEXITSTATUS(st) != 0) worker_crashed = true; }
   Shared *sh = R.ex.sh;
-  std::map<std::string, long> totals; std::vector<std::string> samples;
+  std::map<std::string, long> totals; std::vector<std::string> samples; std::map<std::string, std::string> softs;
   for (int i = 0; i < cfg.workers; i++) {
     std::string fn = cfg.outdir + "/worker-" + cfg.family + "-" + std::to_string(i) + ".stats";
     std::ifstream f(fn); std::string l;
-    while (std::getline(f, l)) { if (l.compare(0, 2, "C ") == 0) { std::istringstream in(l.substr(2)); std::string kx; long v; in >> kx >> v; totals[kx] += v; } else if (l.compare(0, 2, "S ") == 0 && samples.size() < 6) samples.push_back(l.substr(2)); }
+    while (std::getline(f, l)) { if (l.compare(0, 2, "C ") == 0) { std::istringstream in(l.substr(2)); std::string kx; long v; in >> kx >> v; totals[kx] += v; } else if (l.compare(0, 2, "S ") == 0 && samples.size() < 6) samples.push_back(l.substr(2));
+      else if (l.compare(0, 2, "V ") == 0) { size_t tb = l.find('\t'); if (tb != std::string::npos) softs[l.substr(2, tb - 2)] = l.substr(tb + 1); } }
     unlink(fn.c_str());
   }
   int stop = sh->stop.load();
@@ -196,8 +198,9 @@ static inline int vk_main(int argc, char **argv, Factory factory, const char *de
            cfg.bounds[BK_PREEMPT], cfg.bounds[BK_FAULT], cfg.bounds[BK_CRASH], cfg.bounds[BK_ENV], cfg.total, le.c_str(), sh->completed_level.load(), now_s() - t0); }
   for (auto &s : samples) printf("SAMPLE %s\n", s.c_str());
   if (stop == 2) printf("CAPPED %s: time/queue cap hit; deviation levels fully covered: 0..%d\n", cfg.family.c_str(), sh->completed_level.load());
+  for (auto &sv : softs) printf("FAIL %s %s\n", sv.first.c_str(), sv.second.c_str());
   if (stop == 1) { printf("FAIL %s %s (replay: %s)\n", sh->viol_key, sh->viol_text, sh->viol_file); return 1; }
-  return 0;
+  return softs.empty() ? 0 : 1;
 }
 
 }  // namespace vk
